@@ -9,13 +9,22 @@ from pathlib import Path
 
 from .core import g_list
 
-KIND = {"doc": "SDoc", "future": "SFuture", "import": "SImport", "other": "SOther"}
 RENDER = {
     "doc": ['"""module docstring"""', "'text'", '"""two\nlines"""'],
     "future": ["from __future__ import annotations", "from __future__ import (\n    annotations,\n)"],
     "import": ["import os", "from collections import (\n    OrderedDict,\n    defaultdict,\n)", "import sys, json", "from inline_snapshot import snapshot", "import os.path as p  # comment"],
     "other": ["x = 1", "def f():\n    import string\n    return 1", "if True:\n    import json", "sys_path = []  # import os", "class A:\n    pass", "s = 'from x import y'"],
+    # a top-level import of the wanted name: the only thing that makes the inserted line unnecessary
+    "top": ["from inline_snapshot import external", "from inline_snapshot import snapshot, external", "from inline_snapshot import (\n    external,\n    snapshot,\n)"],
+    # the same import nested in a function / class / block (an `other` statement): the name is not bound for the rest of the module
+    "nested": ["def test_known():\n    from inline_snapshot import external\n    return external", "class T:\n    from inline_snapshot import external",
+               "if len('x') == 2:\n    from inline_snapshot import external", "try:\n    from inline_snapshot import external\nexcept ImportError:\n    pass",
+               "def g():\n    def h():\n        from inline_snapshot import snapshot, external\n    return h"],
+    # imports that look similar and do not bind the name
+    "lookalike": ["from inline_snapshot import external as ext", "import inline_snapshot", "from inline_snapshot.extra import raises", "from inline_snapshot import snapshot"],
 }
+STMT = {"doc": "SDoc", "future": "SFuture", "import": "SImport", "other": "SOther", "top": "SImport", "nested": "SOther", "lookalike": "SImport"}
+BIND = {"top": "BTop", "nested": "BNested"}
 
 
 def gen_case(rng):
@@ -24,8 +33,10 @@ def gen_case(rng):
         body.append("doc")
     body += ["future"] * rng.choice([0, 0, 1, 2])
     body += ["import"] * rng.choice([0, 1, 2, 3])
+    if rng.random() < 0.25:
+        body.append(rng.choice(["top", "lookalike"]))
     for _ in range(rng.choice([0, 1, 2, 4])):
-        body.append(rng.choice(["other", "other", "import", "doc"]))
+        body.append(rng.choice(["other", "other", "import", "doc", "nested", "nested", "top", "lookalike"]))
     if not body:
         body = ["other"]
     texts = [rng.choice(RENDER[k]) for k in body]
@@ -43,7 +54,7 @@ def run_case(c):
         ensure_import(f, {"inline_snapshot": ["external"]}, rec)
         files = list(rec.files())
         if not files:
-            return {"error": "nothing inserted"}
+            return {"index": None, "same": True, "new": c["source"]}
         import inline_snapshot._rewrite_code as _rc
         saved = (_rc.format_code, _rc.enforce_formatting)
         _rc.format_code = lambda text, filename: text
@@ -53,12 +64,19 @@ def run_case(c):
         finally:
             _rc.format_code, _rc.enforce_formatting = saved
         tree = ast.parse(new)
-        idx = [i for i, n in enumerate(tree.body) if isinstance(n, ast.ImportFrom) and n.module == "inline_snapshot" and [a.name for a in n.names] == ["external"]]
-        if len(idx) != 1:
-            return {"error": f"{len(idx)} inserted lines", "new": new}
+        old_body = [ast.dump(n) for n in ast.parse(c["source"]).body]
+        new_body = [ast.dump(n) for n in tree.body]
+        if len(new_body) == len(old_body):
+            return {"index": None, "same": new_body == old_body, "new": new}
+        if len(new_body) != len(old_body) + 1:
+            return {"error": f"{len(new_body) - len(old_body)} inserted statements", "new": new}
+        i = next((k for k in range(len(old_body)) if old_body[k] != new_body[k]), len(old_body))
+        n = tree.body[i]
+        if not (isinstance(n, ast.ImportFrom) and n.module == "inline_snapshot" and [(a.name, a.asname) for a in n.names] == [("external", None)]):
+            return {"error": "the inserted statement is not `from inline_snapshot import external`", "new": new}
+        idx = [i]
         # everything else unchanged
-        rest = ast.dump(ast.Module(body=[n for i, n in enumerate(tree.body) if i != idx[0]], type_ignores=[]))
-        same = rest == ast.dump(ast.parse(c["source"]))
+        same = new_body[:i] + new_body[i + 1:] == old_body
         compile(new, "test_m.py", "exec")            # placement rules of __future__ imports are checked by the compiler
         return {"index": idx[0], "same": same, "new": new}
     except SyntaxError as e:
@@ -71,7 +89,8 @@ def run_case(c):
 
 
 def g_case(c, o):
-    return f"({g_list(c['body'], lambda k: KIND[k])}, {o['index']}%nat)"
+    res = "None" if o["index"] is None else f"Some {o['index']}%nat"
+    return f"({g_list(c['body'], lambda k: '(' + STMT[k] + ', ' + BIND.get(k, 'BNone') + ')')}, {res})"
 
 
 def oracle(c, o):
@@ -79,7 +98,17 @@ def oracle(c, o):
     if not o["same"]:
         return "statements other than the inserted import changed"
     body, i = c["body"], o["index"]
-    if any(k == "other" for k in body[:i]):
+    if i is None:
+        # nothing inserted: fine only if the module itself binds the name at top level
+        try:
+            ns = {}
+            exec(compile(c["source"].replace("from __future__ import annotations", "pass").replace("from __future__ import (\n    annotations,\n)", "pass"), "test_m.py", "exec"), ns)
+        except Exception as e:  # noqa
+            return f"generated module does not run: {e}"
+        if "external" not in ns:
+            return "no import line was inserted although the module does not bind the name `external` at top level (generated code using it raises NameError)"
+        return None
+    if any(k in ("other", "nested") for k in body[:i]):
         return f"the import was inserted behind code (statement kinds {body}, index {i})"
     if body and body[0] == "doc" and i == 0:
         return "the import was inserted in front of the module docstring"
